@@ -49,7 +49,7 @@ pub fn number_regex_parser(config: &SmartCalcConfig, tokinizer: &mut Tokinizer, 
                         match capture.name("NOTATION") {
                             Some(notation) => {
                                 notation_match = Some(notation);
-                                num * match notation.as_str() {
+                                let multiplier = match notation.as_str() {
                                     "k" | "K" => 1_000.0,
                                     "M" => 1_000_000.0,
                                     "G" => 1_000_000_000.0,
@@ -58,7 +58,12 @@ pub fn number_regex_parser(config: &SmartCalcConfig, tokinizer: &mut Tokinizer, 
                                     "Z" => 1_000_000_000_000_000_000.0,
                                     "Y" => 1_000_000_000_000_000_000_000.0,
                                     _ => 1.0
+                                };
+                                if multiplier != 1.0 {
+                                    /* The magnitude suffix belongs to the number token */
+                                    parse_end = notation.end();
                                 }
+                                num * multiplier
                             },
                             _ => num
                         }
